@@ -19,7 +19,7 @@ func init() {
 		Explanation: "SEE/PATH/STRUCT plumbing rules (contents of wildcard expansions belong to C13–C15; the PREF64 round-up-to-8 arithmetic is NOT decided): R-C01-1 every RA header field is the like-named configuration field, which is the like-named TOML key (nothing else is set); " +
 			"R-C01-2 on no CFG path of parsePlugins is a plugin of a later kind appended before one of an earlier kind (order prefixes, routes, RDNSS, DNSSL, MTU, source LLA, captive portal, PREF64), and every plugin type has a place in the order; " +
 			"R-C01-3 each plugin's Apply appends only its own NDP option type with fields from the like-named plugin fields (LLA direction Source; static servers after the wildcard server); R-C01-4 the Apply call graph never writes plugin state, configuration or globals, touches only ra.Options, and uses no map iteration or randomness (so rebuilding yields the same RA); " +
-			"R-C01-5 the only RA constructor is Interface.RouterAdvertisement and the only sender is Advertiser.send with buildRA's result R-C01-3 also decides the PREF64 arithmetic structurally (A = 3·maxInterval, rounding test (A % 8s) > 0, rounded A + (8s − A % 8s), cap 65528s) and that DNSSL names are stored in wire form; R-C01-6 every interface of a names group is the result of its own parseInterface call (own plugin instances); the wildcard rule sets of C13, C14 and C15 are evaluated here as shared rules; R-C01-7 no slice that is re-sliced and refilled on each loop iteration in the plugin/config packages is referenced by a stored value (scratch-buffer aliasing between options). R-C01-8 Prepare (run on every re-dial) stores only to interface-derived plugin state: never to a field that package config or a New* constructor sets, never to a plugin's whole value. R-C01-5 also: every path of buildRA that returns without error returns result #0 of the one Interface.RouterAdvertisement call made on that path (no RA is remembered between calls). R-C01-8 also: every path of the advertiser's dial callback that goes on to transmit has gone through the loop that calls Plugin.Prepare.",
+			"R-C01-5 the only RA constructor is Interface.RouterAdvertisement and the only sender is Advertiser.send with buildRA's result R-C01-3 also decides the PREF64 arithmetic structurally (A = 3·maxInterval, rounding test (A % 8s) > 0, rounded A + (8s − A % 8s), cap 65528s) and that DNSSL names are stored in wire form; R-C01-6 every interface of a names group is the result of its own parseInterface call (own plugin instances); the wildcard rule sets of C13, C14 and C15 are evaluated here as shared rules; R-C01-7 no slice that is re-sliced and refilled on each loop iteration in the plugin/config packages is referenced by a stored value (scratch-buffer aliasing between options). R-C01-8 Prepare (run on every re-dial) stores only to interface-derived plugin state: never to a field that package config or a New* constructor sets, never to a plugin's whole value. R-C01-5 also: every path of buildRA that returns without error returns result #0 of the one Interface.RouterAdvertisement call made on that path (no RA is remembered between calls). R-C01-8 also: every path of the advertiser's dial callback that goes on to transmit has gone through the loop that calls Plugin.Prepare. R-C01-9 outside packages plugin and config nothing stores through a pointer to an NDP option it did not allocate (a built RA shares option values with the configuration).",
 		Assumptions: []string{"Go type checker and go/ssa construction are correct", "ndp option constructors copy their arguments as documented"},
 		NotCovered:  []string{"contents of wildcard expansions (C13–C15)", "the PREF64 round-up-to-a-multiple-of-8 arithmetic (only its range, C03)", "equality of two successive RAs when system state changes in between (not required)"},
 		Run:         runC01,
@@ -39,6 +39,7 @@ func runC01(c *Ctx) {
 	c01PrepareKeepsConfig(c)
 	freshRA(c, "R-C01-5")
 	everyDialPrepares(c, "R-C01-8")
+	builtOptionsReadOnly(c, "R-C01-9")
 	scratchAliasing(c, "R-C01-7", fnsInPkgs(c, "internal/plugin", "internal/config"), "an option built earlier (or the configuration itself) is overwritten when the next one is built")
 	// "exactly the options the configuration calls for … for every interface address list / loopback
 	// route list": the wildcard stanzas expand by the rules of C13–C15, which are shared here
@@ -1077,4 +1078,72 @@ func everyDialPrepares(c *Ctx, rule string) {
 	}
 	c.R.Check(bad == "" && n >= 1, rule, c.fname(cl)+":every-dial-prepares", c.fname(cl), c.pos(cl.Pos()), fmt.Sprintf("%d path(s) to a transmission; %s", n, bad),
 		"every dial runs Plugin.Prepare for each plugin before anything is sent", "RAs after a re-dial carry the hardware address / address sources of the previous connection")
+}
+
+// builtOptionsReadOnly (R-C01-9): an RA handed out by buildRA shares memory
+// with the configuration — a plugin's Apply may append the option value it
+// holds (PREF64 appends its own *ndp.PREF64). The consumers of a built RA
+// (advertiser, monitor, debug API, metrics) therefore never write to a field of
+// an NDP option they did not allocate themselves: such a write changes the
+// configuration, and every RA built afterwards carries the altered value.
+// Structural form: outside packages plugin and config no store goes through a
+// pointer to an option type of package ndp (a type whose pointer has a Code
+// method) unless the pointer is an allocation of the storing function.
+func builtOptionsReadOnly(c *Ctx, rule string) {
+	isOpt := func(t types.Type) (string, bool) {
+		pt, ok := t.Underlying().(*types.Pointer)
+		if !ok {
+			return "", false
+		}
+		n, ok := pt.Elem().(*types.Named)
+		if !ok || n.Obj().Pkg() == nil || n.Obj().Pkg().Path() != "github.com/mdlayher/ndp" {
+			return "", false
+		}
+		ms := types.NewMethodSet(pt)
+		for i := 0; i < ms.Len(); i++ {
+			if ms.At(i).Obj().Name() == "Code" {
+				return n.Obj().Name(), true
+			}
+		}
+		return "", false
+	}
+	nFns := 0
+	for _, fn := range c.srcFuncs() {
+		if fn.Pkg == nil || !strings.HasPrefix(fn.Pkg.Pkg.Path(), Mod) || fn.Pkg.Pkg.Path() == PkgConfig || fn.Pkg.Pkg.Path() == PkgPlugin {
+			continue
+		}
+		nFns++
+		for _, b := range fn.Blocks {
+			for _, in := range b.Instrs {
+				st, ok := in.(*ssa.Store)
+				if !ok {
+					continue
+				}
+				// walk the address down to its base pointer
+				addr := st.Addr
+				for {
+					var base ssa.Value
+					switch a := addr.(type) {
+					case *ssa.FieldAddr:
+						base = a.X
+					case *ssa.IndexAddr:
+						base = a.X
+					}
+					if base == nil {
+						break
+					}
+					if name, ok := isOpt(base.Type()); ok {
+						if _, own := base.(*ssa.Alloc); !own {
+							c.R.Fail(rule, c.fname(fn)+":writes-option:"+name, c.fname(fn), c.pos(st.Pos()), "store through a *ndp."+name+" this function did not allocate",
+								"a built RA's options are read-only outside packages plugin and config (copy the option before changing it)",
+								"the option may be the plugin's own value: the configuration is altered and every later RA carries the changed field")
+						}
+						break
+					}
+					addr = base
+				}
+			}
+		}
+	}
+	c.R.Check(nFns >= 50, rule, "module:functions-scanned-for-option-writes", "", "", fmt.Sprintf("%d function(s) outside packages plugin and config scanned", nFns), ">= 50", "anchor-missing")
 }
